@@ -149,6 +149,7 @@ def fixBy (e : Env) (v : String) : Option (Point → Int → Option Point) :=
   | "basic" => some (Relic.Model.EdMul.mulFixBasic o par)
   | "lwnaf" => some (mulFixLwnaf o par)
   | "combs" => some (mulFixCombs o par)
+  | "combd" => some (mulFixCombd o par)
   | _ => none
 
 def simBy (e : Env) (v : String) : Option (Point → Int → Point → Int → Option Point) := do
@@ -248,9 +249,48 @@ partial def handle (e : Env) (w : Nat) (op : String) (args : List String) (got :
       else if v.startsWith "fix_" then fixBy e (v.drop 4).toString
       else mulBy e v
     let sp := fmtPoint (mul c p k)
+    if v == "dig" then
+      some { model := fmtOpt (Relic.Model.EdMul.mulDig (gOps c) (isO c) w p k.natAbs), spec := [sp], tags := "mul.dig" :: ordTag c "p" p }
+    else
     match f with
-    | some f => some { model := fmtOpt (f p k), spec := [sp], tags := ("mul." ++ v) :: ordTag c "p" p }
+    | some f =>
+      -- branch tags of the double-table comb: is the second column in range / empty / the top column empty
+      let par := parOf e
+      let dd := (par.ordBits + par.depth - 1) / par.depth
+      let ee := (dd + 1) / 2
+      let m := par.red k
+      let cols := (List.range dd).map fun i => Relic.Model.EdMul.combCol m dd par.depth i
+      let combd := v == "fix_combd" || ((v == "fix_" || v == "gen") && fixm == "combd")
+      let ctags := if !combd then [] else
+        (if dd % 2 == 1 then ["combd.odd_dd"] else ["combd.even_dd"])
+        ++ (if cols.all (· == 0) then ["combd.m0"] else [])
+        ++ (if (cols.drop ee).all (· == 0) then ["combd.hi_empty"] else [])
+        ++ (if (cols.take ee).all (· == 0) && !(cols.all (· == 0)) then ["combd.lo_empty"] else [])
+        ++ (if cols.getD (dd - 1) 0 != 0 then ["combd.top_col"] else [])
+        ++ (if cols.any (· ≥ 2 ^ (par.depth - 1)) then ["combd.top_row"] else [])
+      some { model := fmtOpt (f p k), spec := [sp], tags := ("mul." ++ v) :: (ctags ++ ordTag c "p" p) }
     | none => cls sp (ordTag c "p" p)
+  | "edtab", [v, p] => do
+    -- the precomputation tables: model = the table constructions of Model/EdMul.lean / EpMul.lean / MulAlg.lean over the affine law,
+    -- spec = the integer multiple of P every entry has to be
+    let p ← parsePoint p
+    let o := gOps c
+    let par := parOf e
+    let d := par.depth
+    let l := (par.ordBits + d - 1) / d
+    let ee := (l + 1) / 2
+    let cv := fun (i : Nat) => ((List.range d).map fun j => ((i >>> j) % 2) * 2 ^ (j * l)).foldl (· + ·) 0
+    let tabs : Option (List Point × List Nat) :=
+      if v == "basic" then some (Relic.Model.MulAlg.tabPow2 o p par.ordBits, (List.range par.ordBits).map fun i => 2 ^ i)
+      else if v == "combs" then some (Relic.Model.EdMul.tabCombs o p l d, (List.range (2 ^ d)).map cv)
+      else if v == "combd" then some (Relic.Model.EpMul.tabCombd o p l ee d,
+        ((List.range (2 ^ d)).map cv) ++ ((List.range (2 ^ d)).map fun i => 2 ^ ee * cv i))
+      else if v == "lwnaf" then some (Relic.Model.MulAlg.tabOdd o p (2 ^ (d - 2)), (List.range (2 ^ (d - 2))).map fun i => 2 * i + 1)
+      else none
+    let (tm, ts) ← tabs
+    let nrm := fun (q : Point) => fmtPoint (q.1 % c.p, q.2 % c.p)
+    some { model := ";".intercalate (tm.map nrm), spec := [";".intercalate (ts.map fun (n : Nat) => fmtPoint (mul c p (Int.ofNat n)))],
+           tags := ["tab." ++ v] ++ ordTag c "p" p }
   | "eds", [v, p, k, q, m] => do
     let v := (v.splitOn ".").headD v          -- suffix .p / .q: the result object is an operand; the value is the same
     let p0 ← parsePoint p
@@ -287,7 +327,25 @@ partial def handle (e : Env) (w : Nat) (op : String) (args : List String) (got :
         go i l (add c acc (mul c p k))
       | _, _ => none
     let r ← go n rest (neutral c)
-    cls (fmtPoint r) []
+    let rec pairs (i : Nat) (l : List String) : Option (List (Point × Int)) :=
+      match i, l with
+      | 0, _ => some []
+      | i + 1, p :: k :: l => do
+        let p ← parsePoint p
+        let k ← parseHexInt k
+        let t ← pairs i l
+        some ((p, k) :: t)
+      | _, _ => none
+    let pks ← pairs n rest
+    -- model column: ed_mul_sim_lot = Model/EdMul.lean `simLot` (interleaved binary NAFs of the unreduced scalars)
+    let lens := pks.map fun (pk : Point × Int) => Relic.Model.Rec.bitLen pk.2.natAbs
+    let tags := ["sim_lot.n" ++ toString n]
+      ++ (if pks.any (fun pk => pk.2 < 0) then ["sim_lot.neg"] else [])
+      ++ (if pks.any (fun pk => pk.2 == 0) then ["sim_lot.zero"] else [])
+      ++ (if pks.any (fun pk => isO c pk.1) then ["sim_lot.O"] else [])
+      ++ (if lens.any (fun b => b > e.fpbits) then ["sim_lot.long"] else [])
+      ++ (if n > 1 && lens.any (fun b => b + 8 < lens.foldl max 0) then ["sim_lot.uneven"] else [])
+    some { model := fmtOpt (Relic.Model.EdMul.simLot (gOps c) pks), spec := [fmtPoint r], tags := tags }
   | "ed_gen", [] => cls (fmtPoint e.g ++ " on=1") []
   | "ed_write_bin", [len, pack, p] => do
     let len ← len.toNat?
